@@ -251,3 +251,20 @@ Print Assumptions C07_at_in_rdata_refuted.
 Theorem C07_at_in_rdata_fixed : scan_name_handles_at = true -> read_file w_at = read_file w_at_abs.
 Proof. exact at_in_rdata_fixed. Qed.
 Print Assumptions C07_at_in_rdata_fixed.
+
+Theorem C07_reader_guards_present :
+  overlong_rejected = true /\ int_add_checked = true /\ ttl_add_checked = true /\
+  charstr_requires_token = true /\ scan_name_handles_at = true.
+Proof. exact reader_guards_present. Qed.
+Print Assumptions C07_reader_guards_present.
+
+Theorem C07_items_total_all : forall file,
+  match snd (items_of file) with EEof | EErr _ => True | _ => False end.
+Proof. exact items_total_all. Qed.
+Print Assumptions C07_items_total_all.
+
+Theorem C07_scan_uint_no_overflow_panic : forall fuel maxv s res,
+  uint_loop fuel maxv int_add_checked s res <> Panic 7 /\
+  uint_loop fuel maxv ttl_add_checked s res <> Panic 7.
+Proof. exact scan_uint_no_overflow_panic. Qed.
+Print Assumptions C07_scan_uint_no_overflow_panic.
